@@ -1358,3 +1358,55 @@ Proof.
     replace ((b <? 0) && (c >? a)) with false by lia.
     apply Hgo_u; auto; intros; lia.
 Qed.
+
+(* ---------- the break tests as written after a549427 ---------- *)
+(* range.go after a549427 writes the two break tests as  !(i+step > i)  and  !(i-Abs(step) < i)  (so that a
+   float counter that no longer moves also stops the loop).  For an integer type they are the tests
+   i+step < i  and  i-Abs(step) > i  of the model ([range_up_g], [range_down_g]): a wrapped sum differs from i
+   whenever step is a non-zero value of the type. *)
+Lemma fits_mod_nz w d : 0 < w -> fits w d -> d <> 0 -> d mod 2 ^ w <> 0.
+Proof.
+  intros Hw Hd Hd0. destruct (pow_half w Hw) as (E2 & Hp). unfold fits in Hd.
+  destruct (Z_lt_le_dec d 0) as [Hn|Hn].
+  - assert (d mod 2 ^ w = d + 2 ^ w) by (symmetry; apply Z.mod_unique with (-1); lia). lia.
+  - rewrite Z.mod_small by lia. lia.
+Qed.
+Lemma wrap_add_neq w i d : 0 < w -> d mod 2 ^ w <> 0 -> wrapf w (i + d) <> i.
+Proof.
+  intros Hw Hd E. destruct (pow_half w Hw) as (E2 & Hp).
+  rewrite wrapf_eq in E by exact Hw.
+  assert (Hm : (i + d) mod 2 ^ w = i mod 2 ^ w) by (rewrite <- (wrap_mod w (i + d) Hw); now rewrite E).
+  apply Hd. replace d with ((i + d) - i) by lia. rewrite Zminus_mod, Hm, Z.sub_diag. apply Z.mod_0_l. lia.
+Qed.
+Lemma range_break_tests_int w i step : 0 < w -> fits w step -> step <> 0 ->
+  (wrapf w (i + step) <? i) = negb (wrapf w (i + step) >? i) /\
+  (wrapf w (i - abs_w w step) >? i) = negb (wrapf w (i - abs_w w step) <? i).
+Proof.
+  intros Hw Hs Hs0. destruct (pow_half w Hw) as (E2 & Hp). split.
+  - generalize (wrap_add_neq w i step Hw (fits_mod_nz w step Hw Hs Hs0)). lia.
+  - assert (Ha : (abs_w w step) mod 2 ^ w <> 0).
+    { unfold abs_w. destruct (Z.ltb_spec step 0).
+      - rewrite wrap_mod by exact Hw. unfold fits in Hs.
+        destruct (Z.eq_dec step (- 2 ^ (w - 1))) as [->|Hne].
+        + rewrite Z.opp_involutive, Z.mod_small by lia. lia.
+        + apply fits_mod_nz; auto. unfold fits. lia. lia.
+      - now apply fits_mod_nz. }
+    assert (Ha' : (- abs_w w step) mod 2 ^ w <> 0).
+    { intros H0. apply Ha. apply Z_mod_zero_opp_full in H0. now rewrite Z.opp_involutive in H0. }
+    generalize (wrap_add_neq w i (- abs_w w step) Hw Ha').
+    replace (i + - abs_w w step) with (i - abs_w w step) by lia. lia.
+Qed.
+Lemma range_break_tests_uint w i step : 0 < w -> 0 < step < 2 ^ w ->
+  ((i + step) mod 2 ^ w <? i) = negb ((i + step) mod 2 ^ w >? i) /\
+  ((i - step) mod 2 ^ w >? i) = negb ((i - step) mod 2 ^ w <? i).
+Proof.
+  intros Hw Hs. assert (Hp : 0 < 2 ^ w) by (apply Z.pow_pos_nonneg; lia).
+  assert (Hs0 : step mod 2 ^ w <> 0) by (rewrite Z.mod_small by lia; lia).
+  assert (H1 : (i + step) mod 2 ^ w <> i).
+  { intros E. apply Hs0. assert (Hm : (i + step) mod 2 ^ w = i mod 2 ^ w) by (rewrite <- E at 2; now rewrite Z.mod_mod by lia).
+    replace step with ((i + step) - i) by lia. rewrite Zminus_mod, Hm, Z.sub_diag. apply Z.mod_0_l. lia. }
+  assert (H2 : (i - step) mod 2 ^ w <> i).
+  { intros E. apply Hs0. assert (Hm : (i - step) mod 2 ^ w = i mod 2 ^ w) by (rewrite <- E at 2; now rewrite Z.mod_mod by lia).
+    replace step with (i - (i - step)) by lia. rewrite Zminus_mod, Hm, Z.sub_diag. apply Z.mod_0_l. lia. }
+  split; lia.
+Qed.
